@@ -200,6 +200,24 @@ func (e *Engine) LoadTemplates(filtername string) error {
 	e.Lock()
 	defer e.Unlock()
 
+	return e.loadTemplates(filtername)
+}
+
+// loadTemplatesOnce loads all templates, unless another caller has loaded them
+// while this one was waiting for the lock (concurrent first renders)
+func (e *Engine) loadTemplatesOnce() error {
+	e.Lock()
+	defer e.Unlock()
+
+	if atomic.LoadInt32(&e.templatesLoaded) != 0 {
+		return nil
+	}
+
+	return e.loadTemplates("")
+}
+
+// loadTemplates does the actual loading, the caller must hold the lock
+func (e *Engine) loadTemplates(filtername string) error {
 	if !atomic.CompareAndSwapInt32(&e.templatesLoaded, 0, 1) && filtername == "" {
 		return errors.New("Can not preload all templates again")
 	}
@@ -346,7 +364,7 @@ func (e *Engine) Render(ctx context.Context, templateName string, data interface
 	// recompile, make sure to fully load only once!
 	if atomic.LoadInt32(&e.templatesLoaded) == 0 && !e.Debug {
 		_, spanLoad := trace.StartSpan(ctx, "pug/loadAllTemplates")
-		if err := e.LoadTemplates(""); err != nil {
+		if err := e.loadTemplatesOnce(); err != nil {
 			spanLoad.End()
 			return nil, err
 		}
